@@ -43,7 +43,7 @@ def main(argv):
             print(log[-2000:]); return 2
         if rp.get("clause") == "translator-validation":
             import pyvalidate
-            res = pyvalidate.replay(rp["case"])
+            res = pyvalidate.replay_vec(rp["case"]) if str(rp["case"].get("target", "")).startswith("pyvec:") else pyvalidate.replay(rp["case"])
         else:
             res = mod.replay(rp["case"]) if "case" in rp else None
         print(json.dumps(dict(replayed=rp.get("clause"), result=res), indent=1, default=str))
@@ -59,6 +59,8 @@ def main(argv):
             import numpy as _np
             import pyvalidate
             pyvalidate.validate(ctx, groups, _np.random.default_rng(seed + 7919))
+            if "Vec" in groups:
+                pyvalidate.validate_vec(ctx, _np.random.default_rng(seed + 104729))
         code = ctx.finish()
     except InfraError as e:
         print(f"INFRA-ERROR {prop}: {e}")
